@@ -835,6 +835,16 @@ class Parser:
         if self.current().type == TokenType.IDENTIFIER:
             section_name = self.current().value
             self.advance()
+        elif self.current().type == TokenType.NUMBER:
+            # A section written without a name (§1::) is named after its id, and emit() writes that
+            # name out (§1::1, §2b::2b): a numeric name is read the way the numeric id is
+            section_name = str(self.current().value)
+            self.advance()
+            if self.current().type == TokenType.IDENTIFIER:
+                suffix_candidate = self.current().value
+                if len(suffix_candidate) == 1 and suffix_candidate.isalpha():
+                    section_name += suffix_candidate
+                    self.advance()
         elif self.current().type in (TokenType.NEWLINE, TokenType.INDENT, TokenType.LIST_START):
             # No explicit name, use section_id as the name (e.g., §CONTEXT:: → name is "CONTEXT")
             section_name = section_id
